@@ -126,7 +126,12 @@ def gen_doc(rnd, depth=0):
         return "<%s%s%s>" % (t, a, rnd.choice(["", "", " /", "/"]) if not a.rstrip().endswith(tuple("abcdefghijklmnopqrstuvwxyz0123456789")) or True else "")
     if r < 0.5:
         t = rnd.choice(sorted(RAWTEXT))
-        return "<%s>%s</%s>" % (t, rnd.choice(RAWS), t)
+        # often followed directly by text with character references (no start tag in between): that text is ordinary
+        # text again, the raw-text mode ended with the end tag
+        tail = rnd.choice(["", "", "Write &lt;em&gt;this&lt;/em&gt; &amp; that", "1 &lt; 2", "&lt;img src=x onerror=y&gt;", " x &gt; y ", "</%s>after" % "b"])
+        if tail.startswith("</"):
+            tail = ""
+        return "<%s>%s</%s>%s" % (t, rnd.choice(RAWS), t, tail)
     t = rnd.choice(NORMAL)
     names = set()
     a = ""
